@@ -112,15 +112,22 @@ Qed.
 Section Deconstruct.
   Variable addr_of : string -> option acct.
 
+  Lemma deconstruct_of_construct cr sub a :
+    contains_slash cr = false -> validate_denom (construct cr sub) = true -> addr_of cr = Some a ->
+    deconstruct addr_of (construct cr sub) = Some (a, sub).
+  Proof.
+    intros Hs Hv Ha. unfold deconstruct. rewrite Hv, (split_construct _ _ Hs).
+    destruct (split_slash sub) as [|p2 rest] eqn:E; [exfalso; exact (split_slash_nonempty sub E)|].
+    rewrite String.eqb_refl, Ha, <- E, join_split. reflexivity.
+  Qed.
+
   (** DeconstructDenom (GetTokenDenom (creator, sub)) = (creator's account, sub) *)
   Theorem deconstruct_construct cr sub d a :
     get_token_denom cr sub = Ok d -> addr_of cr = Some a ->
     deconstruct addr_of d = Some (a, sub).
   Proof.
     intros G Ha. apply get_token_denom_ok in G as (-> & Hs & Hv & _).
-    unfold deconstruct. rewrite Hv, (split_construct _ _ Hs).
-    destruct (split_slash sub) as [|p2 rest] eqn:E; [exfalso; exact (split_slash_nonempty sub E)|].
-    rewrite String.eqb_refl, Ha, <- E, join_split. reflexivity.
+    now apply deconstruct_of_construct.
   Qed.
 
   (** A denom that deconstructs is factory/<creator>/<sub> for a creator that is a valid address
